@@ -159,4 +159,5 @@ package service
 //@   callsite Abort: isnil(clientConn)
 //@   callsite Proceed: isnil(clientConn)
 //@   callsite CollectTCPSession: arg0 == req.Username && arg1 == uint64(nr2l) && arg2 == uint64(nl2r)
-//@   callsite BidirectionalCopy: arg0 == clientConn && arg1 == remoteConn && !isnil(clientConn)
+//@   callsite BidirectionalCopy: arg0 == clientConn
+//@   callsite BidirectionalCopy: arg1 == remoteConn
